@@ -125,13 +125,22 @@ def run_faces(ctx, desc):
               "ys": ("ys", np.arange(N) + off), "face": ("face", np.arange(T.nf))}
     for e, n in desc["extra"].items():
         coords[e] = (e, np.arange(n) * 1.0)
+    # a fifth of the grids also have a vertical axis that takes no part in the links and that the (surface) vector
+    # components do not span
+    with_z = desc["dseed"] % 5 == 2
+    if with_z:
+        coords["z"] = ("z", np.arange(3) + 0.5)
+        coords["zl"] = ("zl", np.arange(3) * 1.0)
     ds = xr.Dataset(coords=coords)
     cm = {"X": {"center": "x", stag: "xs"}, "Y": {"center": "y", stag: "ys"}}
+    if with_z:
+        cm["Z"] = {"center": "z", "left": "zl"}
     rule, fv = desc["rule"], desc["fill"]
     if mixed and not float(fv).is_integer():
         fv = 4.0  # integer-typed data only with integer-valued fills (numpy casts the fill to the array's dtype; not stated)
     t_listed = linktable.listed_in_order(t, desc["dseed"]) if desc["dseed"] % 2 else t
-    g = Grid(ds, coords=cm, face_connections={"face": t_listed}, periodic=False, boundary=dict(rule), fill_value=fv, autoparse_metadata=False)
+    g = Grid(ds, coords=cm, face_connections={"face": t_listed}, periodic=False, boundary=dict(rule, **({"Z": "extend"} if with_z else {})),
+             fill_value=fv, autoparse_metadata=False)
 
     def comp_arrays(scale):
         # own-side component (what the user holds) and opposite-side component (the truth on the other edge)
